@@ -152,7 +152,9 @@ func C07(c *Ctx) {
 		c.tokenHalves(rn, call, nil, genName)
 		okPid, names := c.ctxUserOnly(Arg(call, 1))
 		r.Check(okPid, "C07.one-user", rn, "AddRememberToken.pid", posf(c, call), "the token is stored for the user the login handler put into the request", "the PID the token is stored for is not (only) the user the login handler just authenticated (origins: "+names+"): at After(EventAuth) the session still names whoever used this browser before, and the cookie would re-authenticate that account")
+		r.Check(pidVerbatim(Arg(call, 1), 0), "C07.one-user", rn, "AddRememberToken.pid verbatim", posf(c, call), "the user's PID as the user object reports it", "the PID the token is stored under is a transformed spelling of the user's PID (trimmed, case-folded, …): in a store that compares PIDs byte-wise it names a different account, and the revocation that asks for the real PID does not find the row")
 		for _, g := range CallsTo(raa, genName) {
+			r.Check(pidVerbatim(Arg(g, 0), 0), "C07.one-user", rn, "GenerateToken.pid verbatim", posf(c, g), "the user's PID as the user object reports it", "the PID encoded in the cookie is a transformed spelling of the user's PID: the session the cookie later opens names a different account")
 			okG, namesG := c.ctxUserOnly(Arg(g, 0))
 			r.Check(okG, "C07.one-user", rn, "GenerateToken.pid", posf(c, g), "the cookie names the user the login handler put into the request", "the PID encoded in the cookie is not (only) the just-authenticated user (origins: "+namesG+")")
 		}
@@ -781,4 +783,39 @@ func (c *Ctx) tokenConcatLayout(gen *ssa.Function) (total, sepAt Linear, sepByte
 		return Linear{}, Linear{}, -1, false
 	}
 	return total, sepAt, sepByte, true
+}
+
+// pidVerbatim: v is what a GetPID() call returned (or a parameter), merged
+// at most with other such values — not the result of a string transformation.
+func pidVerbatim(v ssa.Value, d int) bool {
+	v = stripConv(v)
+	if d > 4 {
+		return false
+	}
+	switch x := v.(type) {
+	case *ssa.Parameter, *ssa.FreeVar:
+		return true
+	case *ssa.Phi:
+		for _, e := range x.Edges {
+			if !pidVerbatim(e, d+1) {
+				return false
+			}
+		}
+		return true
+	case *ssa.Call:
+		return x.Call.IsInvoke() && x.Call.Method.Name() == "GetPID"
+	case *ssa.UnOp:
+		// a captured or spilled local holding the PID
+		if al, ok := x.X.(*ssa.Alloc); ok && al.Referrers() != nil {
+			for _, ref := range *al.Referrers() {
+				if st, isSt := ref.(*ssa.Store); isSt && st.Addr == ssa.Value(al) && !pidVerbatim(st.Val, d+1) {
+					return false
+				}
+			}
+			return true
+		}
+		_, isFV := x.X.(*ssa.FreeVar)
+		return isFV
+	}
+	return false
 }
